@@ -54,3 +54,11 @@ func (b *ArrowBuffer) VerifC07FlushAged() { b.flushAgedBuffers() }
 
 func (b *ArrowBuffer) VerifC07Closing() bool    { return b.closing.Load() }
 func (b *ArrowBuffer) VerifC07QueueDepth() int64 { return b.queueDepth.Load() }
+
+var verifC07FullN atomic.Int64
+
+// verifC07Full is called from tryEnqueueFlush's queue-full arm (trace point added by props/C07.py).
+func (b *ArrowBuffer) verifC07Full() { verifC07FullN.Add(1) }
+
+// VerifC07FullCount: queue-full drops since process start.
+func VerifC07FullCount() int64 { return verifC07FullN.Load() }
